@@ -1387,11 +1387,25 @@ impl TryFrom<&str> for AddressAssignment {
     }
 }
 
+#[cfg(not(ironplc_verif))]
 impl fmt::Debug for AddressAssignment {
     fn fmt(&self, f: &mut fmt::Formatter<'_>) -> fmt::Result {
         f.debug_struct("AddressAssignment")
             .field("location", &self.location)
             .field("size", &self.size)
+            .finish()
+    }
+}
+
+// Verification hook: the conformance harness observes parsed libraries through
+// their Debug output and needs the address components as well.
+#[cfg(ironplc_verif)]
+impl fmt::Debug for AddressAssignment {
+    fn fmt(&self, f: &mut fmt::Formatter<'_>) -> fmt::Result {
+        f.debug_struct("AddressAssignment")
+            .field("location", &self.location)
+            .field("size", &self.size)
+            .field("address", &self.address)
             .finish()
     }
 }
